@@ -281,6 +281,7 @@ where
         }
         match read().await {
             Ok(Some(b)) => {
+                app.pieces.borrow_mut().push((seq, b.len()));
                 data.extend_from_slice(&b);
                 n = n.saturating_add(1);
             }
